@@ -32,4 +32,12 @@ impl AtomicInstant {
     pub(crate) fn set_instant(&self, instant: Instant) {
         *self.instant.write().expect("lock poisoned") = Some(instant);
     }
+
+    /// Sets the instant only if it is unset or older than the given one.
+    pub(crate) fn advance_instant(&self, instant: Instant) {
+        let mut current = self.instant.write().expect("lock poisoned");
+        if current.map(|c| c < instant).unwrap_or(true) {
+            *current = Some(instant);
+        }
+    }
 }
